@@ -36,6 +36,10 @@ type AsmLine struct {
 
 type C16Case struct {
 	Lines []AsmLine `json:"lines"`
+	// Pre: sources assembled (and discarded) before, in the same process — usually one the
+	// assembler must reject inside an instruction (an over-long symbol): the assembler
+	// keeps no state between calls, so what came before must not matter
+	Pre []string `json:"pre,omitempty"`
 }
 
 var reSelLeadingZero = regexp.MustCompile(`^0[0-9]+$`)
@@ -173,10 +177,24 @@ func (g asmGens) program(t *rapid.T) C16Case {
 }
 
 func genC16(t *rapid.T) C16Case {
+	var c C16Case
 	if rapid.IntRange(0, 5).Draw(t, "dialect") == 0 {
-		return asmFull.program(t)
+		c = asmFull.program(t)
+	} else {
+		c = asmClean.program(t)
 	}
-	return asmClean.program(t)
+	if chancePct(t, 15, "pre") {
+		long := strings.Repeat("x", 256+uniformN(t, 50, "overlong"))
+		c.Pre = append(c.Pre, []string{
+			"LOAD foo 1\nINCMP foo " + long + "\nHALT\n",
+			"MOUT " + long + " 1\n",
+			"HALT\nCATCH " + long + " 8 1\n",
+			"LOAD " + long + " 12\n",
+			"MNEXT fwd " + long + "\nMOVE foo\n",
+			"DOWN foo 1 " + long + "\n",
+		}[uniformN(t, 6, "prekind")])
+	}
+	return c
 }
 
 func (l AsmLine) text() string {
@@ -294,6 +312,14 @@ func (c C16Case) hasKnownBadSelector() bool {
 func checkC16(c C16Case) (o Outcome) {
 	src := c.source()
 	want := c.expected()
+	for _, pre := range c.Pre {
+		var sink bytes.Buffer
+		if p := catchPanic(func() { asm.Parse(pre, &sink) }); p != nil {
+			o.Viol = &Violation{Kind: "asm-panic", Msg: fmt.Sprintf("asm.Parse panics on %q: %s", pre, p.val), Detail: p.stack}
+			return
+		}
+		o.class("with-earlier-parse")
+	}
 	var out bytes.Buffer
 	var perr error
 	if p := catchPanic(func() { _, perr = asm.Parse(src, &out) }); p != nil {
